@@ -176,6 +176,15 @@ func randomSpec(r *fw.Rand, o *GenOpts, ns *nameSet, depth int) *Spec {
 			}
 			ns.used[key] = true
 			f.TagStyle = fw.Pick(r, o.TagStyles)
+			if strings.HasSuffix(f.TagStyle, "Camel") {
+				// a camel-cased word ending in a digit followed by another word (utf8Io) has no
+				// well-defined split (digits are outside the statement's vocabulary): use snake there
+				for _, wd := range f.TagWords[:len(f.TagWords)-1] {
+					if c := wd[len(wd)-1]; c >= '0' && c <= '9' {
+						f.TagStyle = "snake"
+					}
+				}
+			}
 			f.Tags["dials"] = StyleWords(f.TagStyle, f.TagWords)
 		}
 		s.Fields = append(s.Fields, f)
@@ -559,4 +568,26 @@ func leafForType(t reflect.Type) *Leaf {
 		}
 	}
 	return nil
+}
+
+
+// FlattenedNamesDistinct reports whether the leaves have pairwise distinct
+// flattened Go names (concatenation of the non-embedded path names, also
+// compared case-insensitively): the precondition of every flatten-based source.
+func FlattenedNamesDistinct(leaves []*LeafRef) bool {
+	seen := map[string]bool{}
+	for _, lr := range leaves {
+		n := ""
+		for _, f := range lr.Path {
+			if !f.IsEmbedded() {
+				n += f.Name
+			}
+		}
+		n = strings.ToLower(n)
+		if seen[n] {
+			return false
+		}
+		seen[n] = true
+	}
+	return true
 }
